@@ -100,7 +100,7 @@ fn main() {
                     let seq = vrt::multi::sequential(&tree, &game, &al, &cfg).unwrap();
                     println!("{}", vrt::multi::loom_case(0, &tree, &cfg, &seq, 2, &targets, true, &lb));
                 } else {
-                    let (hist, _) = checks::c07::histories(&ctx, &tree, &game, &al, method, spec, iters, 64);
+                    let (hist, _) = checks::c07::histories(&ctx, &tree, &game, &al, method, spec, iters, 0.0, 64);
                     for (cfg, seq) in hist {
                         println!("{}", vrt::multi::loom_case(0, &tree, &cfg, &seq, 2, &targets, true, &lb));
                     }
